@@ -2,7 +2,7 @@
    tree of interpreters (property C15).  Definitions only.
    Models: BaseInterpreter._resolve_actor_target, _register_in_system, _system_registry, _cancel_scheduled_send;
    Interpreter._deliver / _stop_child_actor / _spawn_actor / stop; SyncInterpreter._deliver / STOP_CHILD branch /
-   _spawn_actor (blocking and thread-managed) / stop.
+   _spawn_actor (blocking and thread-managed, with the runner thread's poll) / stop.
    Every actor runs a machine that only records what it receives, so "processing" a delivered event is appending its
    tag to the recipient's inbox; operations are triggered from outside, one at a time, at quiescent points. *)
 From XSM Require Export Model.Spawn.
@@ -213,6 +213,42 @@ Fixpoint stop_actor (fuel : nat) (eng : aeng) (i : nat) (s : sys) : sys :=
   end.
 Definition stop (eng : aeng) (i : nat) (s : sys) : sys := stop_actor (S (List.length (actors s))) eng i s.
 
+(* ---------------- the runner thread of a thread-managed child (sync engine) ---------------- *)
+(* SyncInterpreter._spawn_actor._runner polls every 10 ms `child.status == "running" and self._actors.get(actor_id) is child`.
+   A child whose entry in the parent's map is no longer this child - its explicit id was reused by a later spawn, or
+   the parent was stopped after that - is stopped by its runner at the next poll: the child's own stop(), so its
+   subtree goes down and its delayed sends are cancelled; nobody takes the child itself out of the actor-system
+   registry, and the entry of the newer child stays.  Blocking spawns and the async engine have no runner. *)
+Definition orphaned (s : sys) (i : nat) : bool :=
+  let a := aget s i in
+  a_running a && a_threaded a &&
+  match a_parent a with
+  | Some p => match dget (a_children (aget s p)) (join_colon (a_id a)) with Some j => negb (Nat.eqb j i) | None => true end
+  | None => false
+  end.
+
+Definition reap_orphans (eng : aeng) (s : sys) : sys :=
+  match eng with
+  | AAsync => s
+  | ASync => fold_left (fun s' i => if orphaned s' i then stop ASync i s' else s') (seq 0 (List.length (actors s))) s
+  end.
+
+Definition poll_period : nat := 10.
+
+(* the clock is about to move to t: the runners poll.  Whether a poll falls before or after a delayed send that is due
+   within the same poll period (or whether there is a poll at all when the clock moves by less than a period) is the
+   scheduler's business: counted as a tie *)
+Definition runner_polls (eng : aeng) (t : nat) (s : sys) : sys :=
+  match eng with
+  | AAsync => s
+  | ASync =>
+      if existsb (orphaned s) (seq 0 (List.length (actors s))) && Nat.ltb (now s) t
+      then let s' := reap_orphans ASync s in
+           if Nat.ltb t (now s + poll_period) || existsb (fun d => Nat.leb (d_due d) (now s + poll_period)) (pending s)
+           then note_tie s' else s'
+      else s
+  end.
+
 (* ---------------- the operations an actor can perform ---------------- *)
 Inductive aop :=
 | OpSpawn (atype : string) (eid : option string) (sysid : option string)   (* a spawn_<key> / spawn_blocking_<key> action, or spawnChild(src) as spawn_<src> *)
@@ -304,7 +340,7 @@ Definition do_step (eng : aeng) (st : astep) (s : sys) : sys :=
   match st with
   | SDo me k ops =>
       if a_running (aget s me) then flush (fold_left (fun s' o => do_op eng me (trigger_tag k) o s') ops s) else s
-  | SAdvance t => advance_to (S (List.length (pending s))) eng t s
+  | SAdvance t => let s0 := runner_polls eng t s in advance_to (S (List.length (pending s0))) eng t s0
   | SStop i => stop eng i s
   end.
 
